@@ -43,7 +43,8 @@ RULE = ("probe cases: every (prefix|none, opcode) pair of decoder-accepted encod
         "from a seeded hash + boundary bytes) x generated state S (gen_state) x hash-filled memory M, "
         "preceded on a long-lived core by 1-3 rounds of generated history programs (4-40 instructions: "
         "random valid non-control-flow encodings plus structured CALL/CALLF-without-return, CALL..RET, "
-        "IR..RETI, counted loops; half of the histories overlap the probe's address with different bytes) "
+        "IR..RETI, counted loops; half of the histories execute an instruction at the probe's address with different "
+        "bytes, a third of those start with the probe's own encoding with its last byte changed) "
         "and junk injected into TEMP0-13 / call bookkeeping (+ a tracer object attached on the Python core in half "
         "of the rounds); references: fresh core in the worker (half of the cases: only after the history) and "
         "fresh core in a pristine process; split cases: generated programs of 8-60 "
